@@ -178,6 +178,17 @@ func (e *Engine) verifIntrinsic(name string) Intrinsic {
 			e.setResult(st, c, h(e, st, int(i.SignedVal())))
 			return nil
 		}
+	case "verifKeywordList":
+		return func(e *Engine, st *State, c ssa.CallInstruction, a []Value) []*State {
+			kind := e.concStr(a[0], "verifKeywordList kind")
+			m, _ := e.Ctx["keywords"].(map[string][]string)
+			var el []Value
+			for _, s := range m[kind] {
+				el = append(el, e.ConcreteStr(s))
+			}
+			e.setResult(st, c, e.newSlice(st, el, len(el), StrV{}))
+			return nil
+		}
 	case "verifKnown":
 		return func(e *Engine, st *State, c ssa.CallInstruction, a []Value) []*State {
 			id := e.concStr(a[0], "verifKnown id")
